@@ -264,6 +264,30 @@ def case_local_systems(case):
                   key=f"{KERNELS[lr]} skips interior edges",
                   cex=(dict(kind='coverage', lr=lr, shape=list(shape), nu=nu)
                        if missing else None)))
+    # sweep ordering: nu sweeps of equal length; every sweep relaxes the
+    # blocks in exactly the reverse order of the previous one (forward /
+    # backward alternation), and sweep k+2 repeats sweep k.
+    sigs = [tuple(sorted((r[0], r[1]) for r in blk['rows'].values()
+                         if r != 'dup')) for blk in rec.blocks]
+    order_ok = True
+    why = ''
+    if nu > 0 and len(sigs) % nu == 0 and sigs:
+        per = len(sigs)//nu
+        sweeps = [sigs[k*per:(k+1)*per] for k in range(nu)]
+        for k in range(1, nu):
+            if sweeps[k] != sweeps[k-1][::-1]:
+                order_ok = False
+                why = f"sweep {k+1} is not the reverse of sweep {k}"
+                break
+    else:
+        order_ok = False
+        why = f"{len(sigs)} blocks for nu={nu}"
+    obs.append(ob("sweeps alternate forward/backward block ordering",
+                  'held' if order_ok else 'cex', cls='concrete', group=grp,
+                  nontrivial=False, note=why,
+                  key=f"{KERNELS[lr]} sweep ordering does not alternate",
+                  cex=(dict(kind='order', lr=lr, shape=list(shape), nu=nu)
+                       if not order_ok else None)))
     # twin
     r3, _ = c.check(label='twin')
     obs.append(ob("twin: side conditions satisfiable", 'twin_sat'
@@ -438,6 +462,8 @@ def replay(cex):
         lr = cex['lr']
         nu = cex.get('nu', 1)
         return _replay_kernel(shape, lr, nu)
+    if kind == 'order':
+        return _replay_order(tuple(cex['shape']), cex['lr'], cex['nu'])
     if kind == 'dispatch':
         return _replay_dispatch(cex)
     return True, 'structural'
@@ -475,6 +501,38 @@ def _replay_kernel(shape, lr, nu, aniso='triaxial'):
     return bad, (f"compiled {KERNELS[lr]} on {shape}, nu={nu}: exact "
                  f"solution moved by {dfix:.3e}; max |boundary| after "
                  f"sweep {bnd:.3e}")
+
+
+def _replay_order(shape, lr, nu):
+    """nu sweeps must equal (nu-2) sweeps followed by 2 sweeps, and an odd
+    count must equal (nu-1) sweeps followed by a sweep in the direction of
+    sweep 1 — on the compiled kernels."""
+    import emg3d
+    rng = np.random.default_rng(4)
+    h = [rng.uniform(.5, 2, n) for n in shape]
+    eta = [-(rng.uniform(.5, 2, shape)+1j*rng.uniform(.5, 2, shape))
+           for _ in range(3)]
+    zeta = rng.uniform(.5, 2, shape)
+    e = [rng.normal(size=fit.edge_shape(shape, d))+0j for d in range(3)]
+    for d in range(3):
+        for idx in fit.boundary_edges(shape, d):
+            e[d][idx] = 0
+    s = [rng.normal(size=x.shape)+0j for x in e]
+    kern = getattr(emg3d.core, KERNELS[lr])
+
+    def run(e0, n):
+        e1 = [x.copy() for x in e0]
+        kern(*e1, *s, *eta, zeta, *h, n)
+        return e1
+    worst = 0.0
+    for n in range(3, nu+1):
+        a = run(e, n)
+        b = run(run(e, n-2), 2) if n % 2 == 0 else run(run(e, n-1), 1)
+        sc = max(np.abs(x).max() for x in a)
+        worst = max(worst, max(np.abs(x-y).max() for x, y in zip(a, b))/sc)
+    return worst > 1e-9, (f"compiled {KERNELS[lr]} on {shape}: nu sweeps vs "
+                          f"composition of alternating sweeps differ by "
+                          f"{worst:.3e} (nu<={nu})")
 
 
 def _replay_dispatch(cex):
@@ -556,6 +614,16 @@ def main(tier):
         other = [(2, 2), (3, 2), (2, 3), (3, 3), (4, 2), (2, 4), (4, 3)]
         nus = {0: (1, 2, 3, 4), 'line': (1, 2, 3, 4)}
         bands = list(range(1, 27))
+    if tier == 'quick':
+        for nu in (3, 4):
+            jobs.append(('case_local_systems', (0, (2, 3, 3), nu,
+                                                'triaxial')))
+            jobs.append(('case_local_systems', (1, (3, 2, 3), nu,
+                                                'triaxial')))
+            jobs.append(('case_local_systems', (2, (2, 3, 3), nu,
+                                                'triaxial')))
+            jobs.append(('case_local_systems', (3, (3, 2, 3), nu,
+                                                'triaxial')))
     for shp in pt_shapes:
         for nu in nus[0]:
             if tier != 'quick' and nu > 2 and int(np.prod(shp)) > 27:
